@@ -119,6 +119,13 @@ pub fn header_pairs() -> Vec<(Item, Item)> {
         t("a/b\t"),
         t("a/b\n"),
         t("a /b"),
+        t("\u{e9}/x"),
+        t("\u{65e5}\u{672c}/x"),
+        t("\u{65e5}/x"),
+        t("\u{e9}\u{e9}/x"),
+        t("\u{1f600}/\u{1f600}"),
+        t("a/\u{e9}\u{e9}"),
+        t("\u{e9}\u{e9}"),
         b(b"a/b"),
     ] {
         p.push((u(3), v));
